@@ -398,3 +398,9 @@ PROPS["C10"] = {
             "workers": 8, "timeout": {"quick": 600, "thorough": 3600}}],
     "assumptions": COMMON_ASSUMPTIONS,
 }
+
+PROPS["C01"]["mc"].append({"module": "MC_SoftmaxCE",
+                           "consts": {"quick": {"Lens": "{2, 3, 4, 5}", "Seeds": "{1, 2, 3}"},
+                                      "thorough": {"Lens": "{1, 2, 3, 4, 5, 6, 7}", "Seeds": "{1, 2, 3, 4, 5, 6}"}},
+                           "workers": 4})
+PROPS["C01"]["level_note"] += "; the soft-max/cross-entropy clause uses the symbolic derivative of -sum t ln softmax(z) (term mode, 1e-5)"
